@@ -72,6 +72,7 @@ class Sched:
         self.executors = []
         self.env = None
         self.trace = []  # names of the participants in the order they ran (compressed)
+        self.max_steps = 50 * max(horizon, 20000)
         self.vclock = 0.0   # virtual wall clock for plain threads (see vsleep)
         self.sleepers = {}  # tid -> wake time
 
@@ -193,6 +194,8 @@ class Sched:
             raise Abort()
         self.version += 1
         me.steps += 1
+        if self.version > self.max_steps:
+            self._fail(Horizon(f'more than {self.max_steps} scheduler steps (livelock?)'))
         en = self._enabled(me)
         if not en:
             if all(t.done for t in self.threads):
